@@ -60,7 +60,7 @@ def run_translators():
         out[what] = (rc, o.strip())
     return out
 
-TRANSLATORS = [('fieldtable', 'FieldTable.v'), ('syncskel', 'SyncSkeleton.v')]
+TRANSLATORS = [('fieldtable', 'FieldTable.v'), ('syncskel', 'SyncSkeleton.v'), ('racetable', 'AccessTable.v')]
 
 def coq_make():
     """Full .vo build (coq_makefile + make -k). Returns (all_ok, log, failed_files)."""
